@@ -15,6 +15,11 @@ Correspondence between the real Perceval code and the Lean model (`Model/C11.lea
              final matrix against the exact product of the original leaves; both `display` modes.
 * flatten  : `Processor.flatten(max_depth)`, `non_unitary_circuit()`, `linear_circuit(flatten=True)`, `copy()`.
 
+* wide     : every family also draws wide instances (simplify / decompose_perms on 9..40 modes with permutations as
+             wide as the circuit and the in-between components clustered around a focus mode; inverse / flatten on
+             9..20 modes; helpers and bubble sort on random permutations of up to 40 modes) - width-dependent behaviour
+             (set iteration order, string vs numeric order, index arithmetic) does not show on 8 modes or fewer.
+
 Direct oracles (property evaluated on the real code, numpy only) classify every disagreement.
 """
 from __future__ import annotations
@@ -1238,6 +1243,9 @@ def run(chk: core.Check):
         "Unitary / PERM leaves are known to the model by their own compute_unitary() (C14); BS and PS by exact parameters",
         "the validity of the simplifier's heuristic choice (_generate_compatible_perm) is not proved: ValidChoice is "
         "evaluated on every observed choice",
+        "beyond 12 modes the reference matrix of simplify / decompose_perms is the exact row-wise (Fraction) product "
+        "of the leaves' own matrices computed by the harness; it is cross-checked against the Lean model on every "
+        "case of at most 12 modes",
         "symbolic (undefined) parameters, WP/PR (no inverse), polarised components and leaf-first `//` on a reused leaf "
         "(shallow copies sharing Parameter objects) are not generated",
     ]
